@@ -97,6 +97,13 @@ def compare(ctx, cases, label, classify=None, real_results=None):
         if l3gen.model_err(m) == "outofmodel":
             hist["out-of-model"] += 1
             continue
+        if l3gen.model_inodes(m)[1] is False:
+            # an instance of HardLinks.cmd_push_tracks (C15_every_log_is_truthful) evaluated by the extracted nrun
+            ctx.violation({"kind": "proof-instance-failed", "theorem": "C15_every_log_is_truthful",
+                           "detail": "HardLinks.nrun rejects the operation log the model wrote", "workspace": ws_json(w),
+                           "cfg": cfg_json(cfg)}, no_input=True)
+        elif l3gen.model_inodes(m)[1]:
+            cov["model_logs_replayed_truthful"] = cov.get("model_logs_replayed_truthful", 0) + 1
         if r == l3gen.strip_err(m):
             continue
         kf = None
